@@ -122,3 +122,14 @@ claim('C08', 'model_checking',
       'inside TLC.',
       'trusts TLC, the psABI transcriptions (x86, x86-64, ARM, AArch64, MIPS, PPC64, S390x, LoongArch) and Wide ripple-carry arithmetic; BPF and '
       'composed MIPS64 relocations are not asserted', 'DESIGN.md 5/C08')
+claim('C05', 'model_checking',
+      'TLA+ line-number state machine (DWARF 6.2, one operator per opcode incl. VLIW op_index), header writers v2-v5 and a byte-level reader '
+      '(spec/LineProgram.tla) model-checked by TLC (MachineIsRun, OpIndexInRange, RowFlagsClearedAfterRow, SequenceReset, ConsumesExtent, '
+      'HeaderGeometry, TablesRoundTrip); emitted .debug_line/.debug_info sections replayed through line_program_for_CU; corpus line programs '
+      'validated as traces (spec/trace/LineProgramTrace.tla)',
+      'TLC enumerates 12-18 header configurations x all programs of <= 2 (quick) / 3 (thorough) instructions over an (opcode kind x operand class) '
+      'alphabet, header table variants v2-v5, two programs per section reached from several units, plus seeded simulation of 40-instruction programs, and '
+      'checks the byte machine against the abstract machine on the specification; each case is replayed field by field; 106 (quick) / 197 (thorough) '
+      'corpus programs are re-executed by the spec machine inside TLC.',
+      'trusts TLC and the transcription of DWARF 6.2; LEB operands <= 5 bytes; CU and line program share format/address size/version',
+      'DESIGN.md 5/C05')
